@@ -229,7 +229,7 @@ class Model:
         self.lines = 0
         self.available = True
 
-    def run(self, ops, timeout=900):
+    def run(self, ops, timeout=300):
         """one answer per op; `None` answers when the model does not build on this tree"""
         if not ops:
             return []
@@ -239,8 +239,24 @@ class Model:
         self.lines += len(ops)
         data = "".join(json.dumps(o, ensure_ascii=False) + "\n" for o in ops)
         with lean_lock(shared=True):
-            p = subprocess.run(["lake", "env", "lean", "--run", "Driver.lean"], cwd=LEAN_DIR, input=data,
-                               stdout=subprocess.PIPE, stderr=subprocess.PIPE, text=True, timeout=timeout)
+            # own session so that a time-out kills `lake` AND the `lean` it spawned
+            proc = subprocess.Popen(["lake", "env", "lean", "--run", "Driver.lean"], cwd=LEAN_DIR, stdin=subprocess.PIPE,
+                                    stdout=subprocess.PIPE, stderr=subprocess.PIPE, text=True, start_new_session=True)
+            try:
+                out, err = proc.communicate(data, timeout=timeout)
+            except subprocess.TimeoutExpired:
+                import signal
+                try:
+                    os.killpg(proc.pid, signal.SIGKILL)
+                except OSError:
+                    pass
+                proc.wait()
+                raise CheckBroken("model driver timed out after %ds on %d ops (first: %s)" % (timeout, len(ops), json.dumps(ops[0])[:200]))
+
+        class _P:
+            pass
+        p = _P()
+        p.returncode, p.stdout, p.stderr = proc.returncode, out, err
         if p.returncode != 0:
             raise CheckBroken("model driver failed rc=%d: %s" % (p.returncode, (p.stderr or p.stdout)[-1500:]))
         lines = [l for l in p.stdout.splitlines() if l.strip()]
